@@ -77,6 +77,7 @@ double from_bits(uint64_t b) { double d; memcpy(&d, &b, 8); return d; }
 
 bool all_numbers(const RV& v) { if (v.k != RV::Arr) return false; for (auto& e : v.arr) if (e.k != RV::Num) return false; return true; }
 
+static RV expand_raw(const RV& v) { RV o = v; if (v.k == RV::Raw) { RV p; if (S_parse((const uint8_t*)v.str.data(), v.str.size(), p)) return p; return o; } for (auto& e : o.arr) e = expand_raw(e); for (auto& e : o.obj) e.second = expand_raw(e.second); return o; }
 static bool has_array(const RV& v) { if (v.k == RV::Arr) return !v.arr.empty(); if (v.k == RV::Obj) for (auto& e : v.obj) if (has_array(e.second)) return true; return false; }
 struct XPrint : Engine {
     Mode mode = M_ROUND; GuardMap gm; bool verbose = false; std::string curdesc;
@@ -124,7 +125,7 @@ struct XPrint : Engine {
             static const unsigned char A[] = { '"', '\\', '/', '\b', 0x01, 0x1f, 0x20, 0x7f, 'a', 0xc3, 0xa9, 0xff };
             std::vector<std::string> strs; strs.push_back("");
             for (int b = 1; b < 256; b++) strs.push_back(std::string(1, (char)b));
-            int maxl = cfg.thorough() ? 3 : 2;
+            int maxl = cfg.thorough() ? 4 : 3;
             for (int l = 2; l <= maxl; l++) { std::vector<int> od(l, 0); for (;;) { std::string s; for (int i = 0; i < l; i++) s += (char)A[od[i]]; strs.push_back(s); int i = l - 1; while (i >= 0 && ++od[i] == (int)sizeof A) od[i--] = 0; if (i < 0) break; } }
             for (const char* s : { "\xe2\x82\xac", "\xf0\x9f\x98\x80", "\xed\xa0\x80", "\xc0\x80", "\xf4\x90\x80\x80", "a\tb\nc\rd\fe\bf", "\"\"\"\"", "\\\\\\\\", "\\\"", "</script>", "\x7f\x7f\x7f", "\x01\x02\x03\x04\x05\x06\x07\x0b\x0e\x0f\x10" }) strs.push_back(s);
             for (auto& s : strs) for (int ctx = 0; ctx < 3; ctx++) {
@@ -135,10 +136,10 @@ struct XPrint : Engine {
         } else if (stage == "lengths") {
             // string values and member names of every length 0..300 and around 512 / 1024 / 4096: plain, with a character that needs escaping first / last / every 16th, all escapes
             std::vector<int> lad; for (int i = 0; i <= 300; i++) lad.push_back(i); for (int i : { 511, 512, 513, 1023, 1024, 1025 }) lad.push_back(i); if (mode != M_PREALLOC) for (int i : { 4095, 4096, 4097 }) lad.push_back(i);
-            for (int L : lad) for (int pat = 0; pat < 6; pat++) for (int ctx = 0; ctx < 3; ctx++) {
+            for (int L : lad) for (int pat = 0; pat < 7; pat++) for (int ctx = 0; ctx < 3; ctx++) {
                 if (!pool_take()) continue; if (L == 0 && pat) continue;
                 std::string sv((size_t)L, 'p');
-                if (pat == 1) sv[0] = '"'; else if (pat == 2) sv[(size_t)L - 1] = '\\'; else if (pat == 3) { for (int i = 15; i < L; i += 16) sv[(size_t)i] = '\n'; } else if (pat == 4) { for (auto& ch : sv) ch = '\x01'; } else if (pat == 5) { for (int i = 0; i < L; i++) sv[(size_t)i] = (i % 2) ? (char)0xA9 : (char)0xC3; if (L % 2) sv[(size_t)L - 1] = 'e'; }
+                if (pat == 1) sv[0] = '"'; else if (pat == 2) sv[(size_t)L - 1] = '\\'; else if (pat == 3) { for (int i = 15; i < L; i += 16) sv[(size_t)i] = '\n'; } else if (pat == 4) { for (auto& ch : sv) ch = '\x01'; } else if (pat == 6) { static const char cyc[] = { '\x01', '\n', 'A', '"', '\x1f', '\\', 'b', '\t' }; for (int i = 0; i < L; i++) sv[(size_t)i] = cyc[i % 8]; } else if (pat == 5) { for (int i = 0; i < L; i++) sv[(size_t)i] = (i % 2) ? (char)0xA9 : (char)0xC3; if (L % 2) sv[(size_t)L - 1] = 'e'; }
                 RV v; if (ctx == 0) v = RV::string(sv); else if (ctx == 1) { v = RV::mk(RV::Obj); v.obj.emplace_back(sv, RV::string(sv)); v.obj.emplace_back("z", RV::number(1)); } else { v = RV::mk(RV::Arr); v.arr.push_back(RV::number(-1.5)); v.arr.push_back(RV::string(sv)); v.arr.push_back(RV::mk(RV::Obj)); }
                 emit(v);
             }
@@ -179,6 +180,9 @@ struct XPrint : Engine {
         } else if (stage == "special") {
             std::vector<RV> sp;
             for (double d : { (double)INFINITY, -(double)INFINITY, (double)NAN }) { sp.push_back(RV::number(d)); RV a = RV::mk(RV::Arr); a.arr = { RV::number(1), RV::number(d), RV::string("x") }; sp.push_back(a); RV o = RV::mk(RV::Obj); o.obj.emplace_back("v", RV::number(d)); sp.push_back(o); }
+            // raw items: arbitrary text for the caller-buffer property, JSON text for the strict-output property (the output must then be JSON as a whole)
+            if (mode == M_STRICT) for (const char* r : { "[1,2]", "{\"a\":null}", "true", "123456789012345678901234567890", "\"raw string\"", "[[[[{}]]]]" }) { RV raw = RV::mk(RV::Raw); raw.str = r; sp.push_back(raw); RV a = RV::mk(RV::Arr); a.arr = { raw, RV::number(1), raw }; sp.push_back(a); RV o = RV::mk(RV::Obj); o.obj.emplace_back("r", raw); o.obj.emplace_back("s", RV::string("t")); sp.push_back(o); RV n = RV::mk(RV::Arr); n.arr = { o, a }; sp.push_back(n); }
+            if (mode == M_PREALLOC) { for (int n = 0; n <= 20; n++) { RV raw = RV::mk(RV::Raw); raw.str = ""; RV a = RV::mk(RV::Arr); for (int i = 0; i < n; i++) a.arr.push_back(raw); sp.push_back(a); RV b = RV::mk(RV::Arr); b.arr.push_back(RV::number(1)); b.arr.push_back(a); sp.push_back(b); RV o = RV::mk(RV::Obj); for (int i = 0; i < n; i++) o.obj.emplace_back("", raw); sp.push_back(o); } }
             if (mode == M_PREALLOC) for (const char* r : { "x", "[1,2]", "{\"a\":null}", "", "123456789012345678901234567890" }) { RV raw = RV::mk(RV::Raw); raw.str = r; sp.push_back(raw); RV a = RV::mk(RV::Arr); a.arr = { raw, RV::number(1) }; sp.push_back(a); RV o = RV::mk(RV::Obj); o.obj.emplace_back("r", raw); o.obj.emplace_back("s", RV::string("t")); sp.push_back(o); }
             for (auto& v : sp) { if (!pool_take()) continue; emit(v); }
             for (int k = 0; k < 6; k++) { if (!pool_take()) continue; static Case c; c.kind = 1; c.iv[1] = k; c.len = 0; pool_run(c); }
@@ -306,7 +310,7 @@ struct XPrint : Engine {
                     LIBV(cJSON_Delete(t2));
                 }
                 if (mode == M_STRICT && all_strings_utf8(rv)) {
-                    RV dec; ctr().extra[5]++; ctr().compared++;
+                    RV dec; ctr().extra[5]++; ctr().compared++; RV rvx = raw ? expand_raw(rv) : rv; const RV& rv = rvx;
                     if (!S_parse((const uint8_t*)T.data(), T.size(), dec)) V("output-not-strict-json", std::string(fmt ? "cJSON_Print" : "cJSON_PrintUnformatted") + " output is not RFC 8259 JSON: \"" + printable(T.substr(0, 300)) + "\"");
                     else { std::string why; if (!rv_tol(dec, rv, why)) V("output-decodes-differently", "independent decoder reads \"" + printable(T.substr(0, 200)) + "\" as a different value: " + why); }
                 }
